@@ -24,14 +24,15 @@ TrBridge ==
     /\ Chk("C11", "response_reaches_the_caller_intact", l,
            E.verdict = "ok" => E.out = E.in)           \* sub-messages (order, id, payload, gas, trigger, message), attributes, events, data
     /\ Chk("C11", "no_partial_response_on_failure", l, E.verdict # "ok" => Len(E.out.msgs) = 0)
-    /\ IF E.via \in {"exec", "sudo"}
+    \* via: "exec"/"sudo" through a contract with custom message and query types, "qexec"/"qsudo" through one with a custom query type only
+    /\ IF E.via \in {"exec", "sudo", "qexec", "qsudo"}
        THEN /\ Chk("C11", "bridged_handler_ran_once_with_the_callers_context", l,
-                   Len(E.seen) = 1 /\ CtxSame(E.seen[1], E.env, E.via = "exec"))
+                   Len(E.seen) = 1 /\ CtxSame(E.seen[1], E.env, E.via \in {"exec", "qexec"}))
             /\ Chk("C11", "bridged_handler_sees_what_a_native_handler_sees", l,
                    (E.via = "exec" /\ Len(E.seen) = 1) =>
                       /\ E.native.height = E.seen[1].height /\ E.native.contract = E.seen[1].contract /\ E.native.token = E.seen[1].token
                       /\ E.native.nonce = E.seen[1].nonce /\ E.native.sender = E.seen[1].sender /\ E.native.funds = E.seen[1].funds)
-            /\ Chk("C11", "bridged_handler_used_the_callers_storage", l, E.mark = (IF E.via = "exec" THEN "echo_exec" ELSE "echo_sudo"))
+            /\ Chk("C11", "bridged_handler_used_the_callers_storage", l, E.mark = (IF E.via \in {"exec", "qexec"} THEN "echo_exec" ELSE "echo_sudo"))
        ELSE TRUE
     /\ Chk("C11", "invariant_C11_FailsExactlyOnCustom", l, C11_FailsExactlyOnCustom')
     /\ l' = l + 1 /\ TLCSet(1, l + 1)
